@@ -28,7 +28,18 @@ func normT(s string) string { return reTmp.ReplaceAllString(s, "T") }
 // iteration order is decided there; the syntactic rule decides the others.
 func detRule(p *Prog, r *Rule, pkgs ...string) {
 	n := 0
+	// only what the ar reader and the loader can reach: a loop that only the signature check walks through is
+	// decided by that property's scenarios (C16), which this check does not run
+	reach := map[*ssa.Function]bool{}
+	for _, root := range []*ssa.Function{p.Func("deb", "LoadAr"), p.Method("deb", "Ar", "Next"), p.Func("deb", "Load"), p.Func("deb", "LoadFile")} {
+		for _, f := range reachableRepoFuncs(root) {
+			reach[f] = true
+		}
+	}
 	for _, fn := range p.SrcFuncs(pkgs...) {
+		if !reach[fn] {
+			continue
+		}
 		for _, ml := range mapOrderLoops(fn) {
 			n++
 			key := fname(fn) + ":range-over-map"
